@@ -1332,3 +1332,8 @@ mod test {
         MessageId::from(v)
     }
 }
+
+#[cfg(kani)]
+pub(crate) mod verif {
+    include!(concat!(env!("LIBP2P_VERIF"), "/hooks/gossipsub_config.rs"));
+}
